@@ -36,23 +36,16 @@ Definition fn_ok (d : fdef) : Prop :=
   forall args g, typed (fn_name d) args = true ->
     run_fn ul ud us call F d args g = spec ul ud us F (fn_name d) args g.
 
-(* fst (a, b) -> a, snd (a, b) -> b (cbn [fst snd] is slow on the large goals) *)
-Ltac pairs_red :=
-  repeat match goal with
-         | |- context [fst (?a, ?b)] => change (fst (a, b)) with a
-         | |- context [snd (?a, ?b)] => change (snd (a, b)) with b
-         end.
-
 (* symbolic execution: unfold the interpreter over the (concrete) syntax, nothing else *)
-Ltac ev :=
+Ltac evf :=
   lazy [run_fn exec exec_block eval eval_list eval_multi eval_bool match_any truth bind one assign assign_all upd nth
         get_field set_field get_sub set_sub loc_of bytes_of binop val_eqb is_nil option_map negb olbl_eqb Nat.eqb
         List.length app repeat map firstn skipn fn_body fn_params fn_locals fn_results fn_name uni
         spec prim rU rZ rB rS oF vfn stfn_name String.eqb Ascii.eqb Bool.eqb orb andb
         fn_Lex fn_root fn_identifier fn_not fn_acceptWord fn_dot fn_nilsafe fn_number fn_emit fn_scanNumber
         fn_IsAlphaNumeric fn_IsAlphabetic fn_peek fn_acceptRun fn_accept fn_backup fn_emitValue fn_word
-        fn_scanString fn_scanEscape fn_scanDigits fn_digitVal fn_lower fn_error fn_IsSpace fn_ignore fn_emitEOF fn_next];
-  pairs_red.
+        fn_scanString fn_scanEscape fn_scanDigits fn_digitVal fn_lower fn_error fn_IsSpace fn_ignore fn_emitEOF fn_next].
+Ltac ev := evf; cbn [fst snd].
 
 (* a call of a callee: answered by its hypothesis *)
 Ltac calls :=
@@ -61,6 +54,8 @@ Ltac calls :=
          end.
 
 Ltac go := repeat (progress (ev; calls)).
+(* the same without the (slow) cbn: for the first run through a long function *)
+Ltac gof := repeat (progress (evf; calls)).
 
 (* case analysis on the innermost condition *)
 Ltac split_one :=
@@ -311,7 +306,7 @@ Lemma root_bridge :
   sig "error" -> sig "emitValue" -> sig "backup" -> sig "peek" -> sig "emit" -> sig "accept" -> sig "IsAlphaNumeric" ->
   fn_ok fn_root.
 Proof.
-  intros H1 H2 H3 H4 H5 H6 H7 H8 H9 H10 H11 H12 H13 H14 args g T. no_args args T. go. unfold g_root. go.
+  intros H1 H2 H3 H4 H5 H6 H7 H8 H9 H10 H11 H12 H13 H14 args g T. no_args args T. gof. unfold g_root. go.
   repeat case_step.
   all: reflexivity.
 Qed.
